@@ -218,6 +218,7 @@ func main() {
 	x.sectionVerify(rng.Fork(2), scale)
 	x.sectionHashes(rng.Fork(3), scale)
 	x.sectionSeal(rng.Fork(4), scale)
+	x.sectionSealLoop(rng.Fork(8))
 	x.sectionEthash(rng.Fork(5), scale)
 	run.Finish()
 }
@@ -543,6 +544,67 @@ func (x *H) sectionSeal(r *hx.Rng, scale int) {
 	x.run.Notes["mined_blocks"] = n
 	x.run.Notes["threads"] = threadsList
 	x.run.Notes["observation_seal_with_unset_block_version_at_v3_heights"] = fmt.Sprintf("%d of %d seals rejected by VerifySeal (mine takes HashNoNonce before setting header.Version; outside the worker's usage)", unsetRejected, unsetProbe)
+}
+
+// ---------------------------------------------------------------------------------------------------------------------
+// 4b. seal-and-verify loop: many multi-threaded seals at very low difficulty on the argon2id versions for a fixed time
+//     budget. Every block Seal returns is judged by the real VerifySeal (an interleaving of the sealer goroutines that
+//     makes a thread report a nonce it did not hash shows up as `mined-seal-rejected`). Only per-block assertions: two runs
+//     are never compared; the number of rounds depends on the machine and is reported in the histogram.
+
+func (x *H) sectionSealLoop(r *hx.Rng) {
+	budget := 18 * time.Second
+	if x.run.Thorough() {
+		budget = 150 * time.Second
+	}
+	threadsList := []int{2, 3, 4, 8, 16, 16, 8, 16}
+	engines := map[int]*aquahash.Aquahash{}
+	for _, t := range threadsList {
+		if engines[t] == nil {
+			e := aquahash.New(&aquahash.Config{StartVersion: 2, PowMode: aquahash.ModeNormal})
+			e.SetThreads(t)
+			engines[t] = e
+		}
+	}
+	// heights whose version by height is 2, 3, 4 on testnet2 (HF5=0, HF8=8, HF9=19)
+	c := builtin()[2]
+	heights := map[int]uint64{2: 3, 3: 12, 4: 40}
+	chain := &fakeChain{c.c}
+	deadline := time.Now().Add(budget)
+	rounds, bad := 0, 0
+	base := randHeader(r, 1, big.NewInt(2))
+	for time.Now().Before(deadline) {
+		for k := 0; k < 64; k++ {
+			v := 2 + (rounds % 3)
+			threads := threadsList[(rounds/3)%len(threadsList)]
+			h := types.CopyHeader(base)
+			h.Number = new(big.Int).SetUint64(heights[v])
+			h.Difficulty = big.NewInt(int64(2 + rounds%3))
+			h.GasUsed = uint64(rounds) // a fresh seal-free hash every round
+			h.Version = types.HeaderVersion(v)
+			if rounds%256 == 0 {
+				x.run.Current(fmt.Sprintf("seal-loop round=%d threads=%d version=%d", rounds, threads, v))
+			}
+			sealed, err := engines[threads].Seal(chain, types.NewBlockWithHeader(h), nil)
+			rounds++
+			x.run.Hist[fmt.Sprintf("seal-loop:threads=%d", threads)]++
+			if err != nil || sealed == nil {
+				x.run.Violate("seal-failed", "seal-failed", fmt.Sprintf("seal-loop round=%d threads=%d version=%d", rounds, threads, v), fmt.Sprint("Seal returned ", err))
+				continue
+			}
+			sh := sealed.Header()
+			if e := x.real.VerifySeal(chain, sh); e != nil {
+				bad++
+				x.run.Violate("mined-seal-rejected", "mined-seal-rejected",
+					map[string]string{"threads": fmt.Sprint(threads), "version": fmt.Sprint(v), "difficulty": sh.Difficulty.String(), "nonce": fmt.Sprint(sh.Nonce.Uint64()),
+						"hashNoNonce": hexb(sh.HashNoNonce().Bytes()), "minerHash": hexb(sealed.MinerHash().Bytes())},
+					fmt.Sprintf("Seal with %d threads returned a block (version %d, difficulty %s, nonce %d) that VerifySeal rejects: %v", threads, v, sh.Difficulty, sh.Nonce.Uint64(), e))
+			}
+		}
+	}
+	x.run.Notes["seal_loop_rounds"] = rounds
+	x.run.Notes["seal_loop_rejected"] = bad
+	x.run.Notes["seal_loop_budget_s"] = budget.Seconds()
 }
 
 // ---------------------------------------------------------------------------------------------------------------------
